@@ -221,10 +221,11 @@ class ProgressBar(object):
         """
         Finish the progress output.
         """
-        if not self._max:
+        max_known = bool(self._max)
+        if not max_known:
             self._max = self._step
 
-        if self._step == self._max and not self._should_overwrite:
+        if max_known and self._step == self._max and not self._should_overwrite:
             return
 
         self.set_progress(self._max)
